@@ -205,7 +205,7 @@ type EntrySpec struct {
 // GramSpec describes how a grammar property is run.
 type GramSpec struct {
 	Variants []string
-	Entries  []EntrySpec
+	Entries  func(gg *GenGrammar) []EntrySpec
 	// Jobs lists the (entry, args, needed witnesses) to explore for a grammar.
 	Jobs func(g *GenGrammar) []*Job
 	// BrokenIsViolation: a variant that does not generate/compile violates the property.
@@ -263,29 +263,20 @@ func (gg *GenGrammar) writeHarness(spec *GramSpec) error {
 	dir := filepath.Join(gg.Dir, "h")
 	os.MkdirAll(dir, 0o755)
 	var b strings.Builder
-	b.WriteString("package h\n\nimport (\n\t\"vhlib/hl\"\n\t\"vhlib/ref\"\n")
+	b.WriteString("package h\n\nimport (\n\t\"strconv\"\n\n\t\"vhlib/hl\"\n\t\"vhlib/ref\"\n")
 	for _, vn := range spec.Variants {
 		if _, bad := gg.Broken[vn]; bad {
 			continue
 		}
 		fmt.Fprintf(&b, "\t%s %q\n", vn, gg.Pkg+"/"+vn)
 	}
-	b.WriteString(")\n\nvar _ = hl.NSw\n\n")
+	b.WriteString(")\n\nvar _ = hl.NSw\nvar _ = strconv.Quote\n\n")
 	fmt.Fprintf(&b, "// grammar %s (%s)\n", gg.G.Hash(), gg.G.Tag)
 	for _, line := range strings.Split(strings.TrimSpace(gg.G.PegText("x", false)), "\n") {
 		b.WriteString("// " + line + "\n")
 	}
-	fmt.Fprintf(&b, "var G = %s\n\nconst NSW = %d\n\nvar _ *ref.Grammar = G\n\n", gg.G.GoLiteral(), gg.G.NSw)
-	for _, e := range spec.Entries {
-		usable := true
-		for _, vn := range spec.Variants {
-			if _, bad := gg.Broken[vn]; bad && strings.Contains(e.Body, vn+".New") {
-				usable = false
-			}
-		}
-		if !usable {
-			continue
-		}
+	fmt.Fprintf(&b, "var G = %s\n\nconst NSW = %d\nconst HASACT = %v\n\nvar _ *ref.Grammar = G\n\n", gg.G.GoLiteral(), gg.G.NSw, gg.G.NAct > 0)
+	for _, e := range spec.Entries(gg) {
 		fmt.Fprintf(&b, "func %s(%s) {\n\t%s\n}\n\n", e.Name, e.Params, e.Body)
 	}
 	return os.WriteFile(filepath.Join(dir, "h.go"), []byte(b.String()), 0o644)
@@ -408,7 +399,7 @@ func runGrammarProperty(c *Ctx, fam []*family.Grammar, spec *GramSpec) error {
 			}
 			var entries []string
 			hp := l.Pkgs[gg.Pkg+"/h"]
-			for _, e := range spec.Entries {
+			for _, e := range spec.Entries(gg) {
 				if hp.Func(e.Name) != nil {
 					entries = append(entries, e.Name)
 				}
@@ -436,3 +427,9 @@ func runGrammarProperty(c *Ctx, fam []*family.Grammar, spec *GramSpec) error {
 	return nil
 }
 
+
+// OK reports whether variant vn generated and compiled.
+func (gg *GenGrammar) OK(vn string) bool {
+	_, bad := gg.Broken[vn]
+	return !bad
+}
